@@ -12,7 +12,7 @@ from sim.terms import XSD, T, key, skey, tkey, u
 
 ID = "C02"
 LEVEL = "exploration"
-TIERS = {"quick": {"runs": 1000}, "thorough": {"runs": 30000, "wall_cap": 3000}}
+TIERS = {"quick": {"runs": 3200, "wall_cap": 600}, "thorough": {"runs": 80000, "wall_cap": 3300}}
 RULE = (
     "each evaluation is one seeded history (<=40 quick / <=70 thorough steps) of quad add / addN / triple add / remove by triple pattern (all "
     "graphs) / remove by quad pattern / view.add / view.remove / graph creation / remove_graph over <=4 graph names (IRI, BNode with the same "
